@@ -27,6 +27,10 @@ def main(run):
         if uneven(t):
             run.nontrivial.add(F.tree_key(t))
     run.evaluations += F.drive_and_judge(run, 'c2s', items, ['inspect'])
+    # constructors on collections of treespecs made under the same / other option sets (namespace and none_is_leaf rules of A6)
+    plain = [c for c in F.CFGS if not c['haspred']]
+    items = [{'t': t, 'cfgs': [plain[(i * 7) % len(plain)]], 'kidcfgs': plain} for i, t in enumerate(trees + rt) if t['ch']]
+    run.evaluations += F.drive_and_judge(run, 'fromcoll', items[:4000 if quick else 100000], ['fromcoll'])
     # compose / transform on pairs
     pb = [('PA', 3, 2, 2)] if quick else [('PA', 4, 2, 2), ('PB', 3, 2, 2)]
     pairs = P.pair_model_phase(run, pb, ['PInvC08'])
